@@ -12,7 +12,20 @@ reg(Prop('C09', [
     Stream('c09.sized', 10000, 1000000, 'spec', exhaustive='every size argument 0..255'),
     Stream('c09.ilen', 10000, 1000000, 'spec', exhaustive='0xffffffdf..0xffffffff'),
     Stream('c09.wdata', 10000, 1000000, 'spec', exhaustive='every size argument 0..255; boundary values per width'),
-], clauses=[], design_ref='§5 C09',
+], clauses=[
+    'uleb_exact', 'sleb_exact', 'uleb16_exact', 'uleb16_never_panics', 'uleb_u32_exact', 'uleb_u32_narrows',
+    'skip_exact', 'leb_write_read_unsigned', 'leb_write_read_signed',
+    'le_be_positional', 'fixed_le_be', 'fixed_le_be_app', 'fixed_eof_iff', 'fixed_write_read', 'fixed_read_write',
+    'fixed_signed', 'read_uint_exact', 'sized_reads', 'sized_reads_ok', 'address_size_exact', 'size_ok_iff',
+    'initial_len', 'initial_len_write', 'initial_len_write_read',
+    'write_udata_exact', 'write_udata_read', 'write_sdata_exact', 'write_sdata_read', 'in_signed_iff',
+    'add_sized_sound', 'add_sized_exact', 'wrapping_add_sized_exact', 'min_tombstone_exact', 'ones_sized_validated',
+], explored_only=[
+    'RunTimeEndian::{Little,Big} = LittleEndian/BigEndian: one bool in the model; cross-checked on the implementation by the c09.fixed harness oracle (endianity-mismatch)',
+    'Writer::write_uleb128/write_sleb128 = Leb128::{unsigned,signed}.bytes(): harness oracle (writer-helper-mismatch) in c09.wuleb/c09.wsleb',
+    'add_sized / wrapping_add_sized / min_tombstone / ones_sized: theorems about the model only; ReaderAddress is pub(crate), so there is no C09 stream for them (they are exercised through the aranges/range-list/line properties)',
+    'Offset = usize = u64: ReaderOffset::from_u64 never fails on the checked platform (UnsupportedOffset on 32-bit targets is not modelled)',
+], design_ref='§5 C09',
     level_text='Theorems (Coq) state that the LEB128 readers return exactly the mathematical value of the unique terminated prefix and reject exactly the encodings that do not fit, for every byte string; fixed-width, sized and initial-length codecs likewise. The model is tied to the Rust by running both on ~1.8M cases per quick run (exhaustive short strings, every size argument).',
     level_note='Trusted: Coq kernel, the hand-written model (tied by differential execution only), OCaml/Rust/Python glue. usize = u64 is assumed for offsets.',
     technique='Coq proof of exact LEB128/fixed-width/initial-length codec theorems over a Gallina model + differential correspondence with gimli (debug+release)',
